@@ -57,7 +57,7 @@ def check(w, tier, t0):
     with ThreadPoolExecutor(max_workers=nproc) as ex:
         for part in ex.map(rep, range(nproc)):
             events += part
-    nrand = 4000 if tier == "quick" else 80000
+    nrand = 4000 if tier == "quick" else 300000
 
     def rnd(j):
         out = os.path.join(d, "r%d.ndjson" % j)
